@@ -254,7 +254,7 @@ theorem C06_reentrant_model_conservative (cfg : Cfg) (host port : Nat) (evs : Li
       (Afkak.BrokerClientR.traceRWith cfg fuel (Afkak.BrokerClientR.StR.init host port) (evs.map .flat)).map
           (fun t => Afkak.BrokerClientR.plain t.2)
         = (trace cfg (St.init host port) evs).map (·.2) :=
-  Afkak.BrokerClientR.traceR_flat cfg evs (Afkak.BrokerClientR.StR.init host port) rfl rfl (sinv_init host port)
+  Afkak.BrokerClientR.traceR_flat cfg evs (Afkak.BrokerClientR.StR.init host port) rfl rfl rfl (sinv_init host port)
 
 /-- C06 with RE-ENTRANT callbacks (`Afkak/BrokerClientR.lean`): whatever finite sequences of calls
     (`close`, `disconnect`, cancel another request, `makeRequest`) the callbacks attached to request
